@@ -374,6 +374,13 @@ def gen_decks(outdir: str) -> list[str]:
     nv = s2.shapes.title._element.find("{%s}nvSpPr/{%s}nvPr" % (F.NS_P, F.NS_P))
     nv.append(etree.fromstring('<p:extLst xmlns:p="%s"><p:ext uri="{D42A27DB-BD31-4B8C-83A1-F6EECF244321}"><p14:modId '
                                'xmlns:p14="http://schemas.microsoft.com/office/powerpoint/2010/main" val="1234567"/></p:ext></p:extLst>' % F.NS_P))
+    # a slide-number field on the slide itself whose stored text is not the slide's position (the deck numbers its slides from 5, as
+    # "Number slides from" in Slide Size sets it; a field keeps the text it was saved with)
+    tb = s2.shapes.add_textbox(Emu(100), Emu(5000000), Emu(900000), Emu(300000))
+    para = tb.text_frame.paragraphs[0]._p
+    para.insert(0, etree.fromstring('<a:fld xmlns:a="%s" id="{B7F3A1C2-0D4E-4F5A-9B6C-7D8E9F0A1B2C}" type="slidenum"><a:rPr lang="en-US"/>'
+                                    '<a:t>6</a:t></a:fld>' % A))
+    prs.part._element.set("firstSlideNum", "5")
     p = os.path.join(outdir, "gen-shapes.pptx")
     prs.save(p)
     out.append(p)
